@@ -24,6 +24,8 @@ pub enum RawTok {
     /// placement, where the .includepath goes, exit at end
     Open(u8, u8, bool),
     Close,
+    /// `.exit` in the middle of the current file: the rest of *this* file is dead text
+    Exit,
 }
 
 #[derive(Clone, Debug)]
@@ -38,6 +40,7 @@ pub fn raw_tree() -> impl Strategy<Value = RawTree> {
         6 => (any::<u8>(), any::<u8>()).prop_map(|(a, b)| RawTok::Chunk(a, b)),
         3 => (0u8..7, 0u8..3, proptest::bool::weighted(0.2)).prop_map(|(p, w, e)| RawTok::Open(p, w, e)),
         2 => Just(RawTok::Close),
+        1 => Just(RawTok::Exit),
     ];
     (proptest::collection::vec(tok, 3..40), proptest::option::weighted(0.1, any::<u8>()), proptest::bool::weighted(0.15)).prop_map(|(toks, missing, main_exit)| RawTree { toks, missing, main_exit })
 }
@@ -58,6 +61,8 @@ pub struct FileOut {
     pub open: bool,
     pub exit: bool,
     pub children_closed: Vec<usize>,
+    /// an `.exit` has been written in the middle of this file
+    pub exited: bool,
 }
 
 #[derive(Default, Debug)]
@@ -67,6 +72,7 @@ pub struct Shape {
     pub includepath_in_sibling: bool,
     pub includepath_inherited: bool,
     pub exit_present: bool,
+    pub exit_mid_file: bool,
     pub files: usize,
     pub placements: BTreeSet<u8>,
     pub crossing_both_directions: bool,
@@ -109,7 +115,7 @@ const POISON: &[&str] = &["this line is not assembly ((", ".error \"after exit\"
 
 pub fn build_tree(r: &RawTree, root_abs: &Path) -> Tree {
     let mut shape = Shape::default();
-    let mut files: Vec<FileOut> = vec![FileOut { rel: PathBuf::from("main/main.asm"), text: String::new(), depth: 0, open: true, exit: r.main_exit, children_closed: vec![] }];
+    let mut files: Vec<FileOut> = vec![FileOut { rel: PathBuf::from("main/main.asm"), text: String::new(), depth: 0, open: true, exit: r.main_exit, children_closed: vec![], exited: false }];
     let mut stack: Vec<usize> = vec![0];
     let mut flat: Vec<Ln> = vec![];
     let mut messages = vec![];
@@ -130,7 +136,35 @@ pub fn build_tree(r: &RawTree, root_abs: &Path) -> Tree {
     let missing_at = r.missing.map(|m| m as usize % total_chunks);
     for tok in &r.toks {
         let cur = *stack.last().unwrap();
+        if files[cur].exited {
+            // dead text after a mid-file .exit: it must have no effect whatever it is
+            match tok {
+                RawTok::Chunk(t, _) => {
+                    let dead = ["this is not assembly ((", ".dw 0xdead", ".error \"dead text\"", "lab_dead: nop", ".include \"nowhere_dead.inc\"", ".equ eq_dead = 1", ".device ATmega8", ".define FL_0"];
+                    files[cur].text.push_str(dead[*t as usize % dead.len()]);
+                    files[cur].text.push('\n');
+                }
+                RawTok::Close => {
+                    if stack.len() > 1 {
+                        let idx = stack.pop().unwrap();
+                        files[idx].open = false;
+                        let parent = *stack.last().unwrap();
+                        files[parent].children_closed.push(idx);
+                    }
+                }
+                _ => {}
+            }
+            continue;
+        }
         match tok {
+            RawTok::Exit => {
+                if cur != 0 || r.main_exit {
+                    files[cur].text.push_str(".exit\n");
+                    files[cur].exited = true;
+                    shape.exit_present = true;
+                    shape.exit_mid_file = true;
+                }
+            }
             RawTok::Chunk(t, a) => {
                 let k = chunk_no;
                 chunk_no += 1;
@@ -270,7 +304,7 @@ pub fn build_tree(r: &RawTree, root_abs: &Path) -> Tree {
                             pre_lines.push_str(&line.replace(&arg, &if placement == P_INCLUDEPATH_ABS { arg.clone() } else { rel_between(&parent_dir, &dir) }));
                         } else {
                             // closed sibling: its text is complete, but an .exit at its end must stay last
-                            if files[carrier].exit {
+                            if files[carrier].exit || files[carrier].exited {
                                 pre_lines.push_str(&line.replace(&arg, &if placement == P_INCLUDEPATH_ABS { arg.clone() } else { rel_between(&parent_dir, &dir) }));
                                 shape.includepath_in_sibling = false;
                             } else {
@@ -285,7 +319,7 @@ pub fn build_tree(r: &RawTree, root_abs: &Path) -> Tree {
                 files[cur].text.push_str(&format!(".include \"{}\"\n", directive_arg));
                 let depth = files[cur].depth + 1;
                 shape.max_depth = shape.max_depth.max(depth);
-                files.push(FileOut { rel, text: String::new(), depth, open: true, exit: *exit, children_closed: vec![] });
+                files.push(FileOut { rel, text: String::new(), depth, open: true, exit: *exit, children_closed: vec![], exited: false });
                 stack.push(idx);
             }
             RawTok::Close => {
@@ -355,7 +389,7 @@ pub fn build_tree(r: &RawTree, root_abs: &Path) -> Tree {
     }
     // .exit + poison at the end of the files that asked for it
     for (i, f) in files.iter_mut().enumerate() {
-        if f.exit {
+        if f.exit && !f.exited {
             shape.exit_present = true;
             f.text.push_str(".exit\n");
             for k in 0..3 {
@@ -502,7 +536,7 @@ pub fn test(r: &RawTree, ev: &mut Ev, opts: &ModelOpts, tag: &str) -> Result<(),
     for p in &s.placements {
         ev.class(&format!("placement:{}", ["as-written-absolute", "as-written-relative-to-cwd", "includer-directory", "includer-subdirectory", "caller-supplied-directory", "includepath-absolute", "includepath-relative"][*p as usize]));
     }
-    for (c, on) in [("depth>=2", s.max_depth >= 2), ("includepath-relative-to-nested-file", s.includepath_relative_in_nested), ("includepath-in-earlier-sibling", s.includepath_in_sibling), ("includepath-inherited-from-enclosing-file", s.includepath_inherited), ("exit-present", s.exit_present), ("symbols-cross-boundaries-both-directions", s.crossing_both_directions)] {
+    for (c, on) in [("depth>=2", s.max_depth >= 2), ("includepath-relative-to-nested-file", s.includepath_relative_in_nested), ("includepath-in-earlier-sibling", s.includepath_in_sibling), ("includepath-inherited-from-enclosing-file", s.includepath_inherited), ("exit-present", s.exit_present), ("exit-in-the-middle-of-a-file", s.exit_mid_file), ("symbols-cross-boundaries-both-directions", s.crossing_both_directions)] {
         if on {
             ev.class(c);
         }
